@@ -1,7 +1,7 @@
 CONSTANTS
   NP = 5
   C = 3
-  DSEL = 2
+  DSEL = 3
 INIT Init
 NEXT Next
 INVARIANT Sound
